@@ -244,3 +244,143 @@ HARNESSES = [
                  '(pickle.dumps for the query response stays real)']),
   H('C13_default_setting', quick=dict(timeout=30), encodes=['carbon.conf:defaults']),
 ]
+
+
+# ---- opcode routes to a global, on the REAL C unpickler ---------------------------------------------------------------------
+import builtins  # noqa: E402
+import copyreg  # noqa: E402
+import carbon.protocols as _protocols  # noqa: E402
+import struct  # noqa: E402
+import sys  # noqa: E402
+import types  # noqa: E402
+from vp_lib.api import pick  # noqa: E402
+
+_canary_mod = types.ModuleType('vp_canary')
+_canary_hits = []
+
+
+def _hit(*a, **k):
+  _canary_hits.append(a)
+  return 0
+
+
+class _CanaryClass(object):
+  def __init__(self, *a, **k):
+    _canary_hits.append(('init',) + a)
+
+  def __setstate__(self, st):
+    _canary_hits.append(('setstate', st))
+
+
+_canary_mod.hit = _hit
+_canary_mod.Klass = _CanaryClass
+sys.modules['vp_canary'] = _canary_mod
+GLOBALS = [('vp_canary', 'hit'), ('vp_canary', 'Klass'), ('os', 'system'), ('builtins', 'eval'), ('builtins', 'object'), ('builtins', 'getattr'),
+           ('copyreg', '_reconstructor'), ('__builtin__', 'eval'), ('copy_reg', 'add_extension'), ('subprocess', 'Popen'),
+           ('carbon.util', 'SafeUnpickler'), ('pickle', 'loads'), ('__builtin__.x', 'object'), ('copy_reg', '_reconstructor.__globals__'),
+           ('__builtin__', 'object'), ('copy_reg', '_reconstructor')]
+ROUTES = ['GLOBAL', 'STACK_GLOBAL', 'INST', 'OBJ', 'NEWOBJ', 'NEWOBJ_EX', 'REDUCE', 'BUILD', 'EXT1']
+_EXT_CODE = 0xF0
+
+
+def _global_ref(route, module, name):
+  m, n = module.encode('utf-8'), name.encode('utf-8')
+  if route == 'STACK_GLOBAL':
+    return b'\x8c' + bytes([len(m)]) + m + b'\x8c' + bytes([len(n)]) + n + b'\x93'
+  return b'c' + m + b'\n' + n + b'\n'
+
+
+def _program(route, proto, module, name, depth):
+  """A pickle program that reaches (module, name) through `route`, nested `depth` levels inside a
+  well-formed datapoint list."""
+  m, n = module.encode('utf-8'), name.encode('utf-8')
+  g = _global_ref('STACK_GLOBAL' if route == 'STACK_GLOBAL' else 'GLOBAL', module, name)
+  if route in ('GLOBAL', 'STACK_GLOBAL'):
+    body = g
+  elif route == 'INST':
+    body = b'(' + b'i' + m + b'\n' + n + b'\n'
+  elif route == 'OBJ':
+    body = b'(' + g + b'o'
+  elif route == 'NEWOBJ':
+    body = g + b')' + b'\x81'
+  elif route == 'NEWOBJ_EX':
+    body = g + b')' + b'}' + b'\x92'
+  elif route == 'REDUCE':
+    body = g + b'(K\x01tR'
+  elif route == 'BUILD':
+    body = g + b')\x81' + b'}b'
+  else:
+    body = b'\x82' + bytes([_EXT_CODE])
+  for _ in range(depth):
+    body = b'(' + body + b't'                      # wrap in a tuple
+  prog = b']' + b'(' + b'X\x01\x00\x00\x00m' + body + b'\x86' if False else b'](' + body + b'e'
+  head = (b'\x80' + bytes([proto])) if proto >= 2 else b''
+  return head + prog + b'.'
+
+
+def _route(ri, proto, gi, depth, via_protocol):
+  route, (module, name) = pick(ROUTES, ri), pick(GLOBALS, gi)
+  if route == 'STACK_GLOBAL' and proto < 4:
+    return True
+  if route in ('NEWOBJ', 'BUILD') and proto < 2 or route == 'NEWOBJ_EX' and proto < 4:
+    return True
+  data = _program(route, proto, module, name, depth)
+  if route == 'EXT1':
+    try:
+      copyreg.add_extension(module, name, _EXT_CODE)
+    except ValueError:
+      return True
+  seen = []
+  orig = builtins.__import__
+
+  def recording_import(modname, *a, **k):
+    if sys._getframe(1).f_code.co_name == 'find_class':      # imports made by the unpickler's hook only
+      seen.append(modname)
+    return orig(modname, *a, **k)
+  del _canary_hits[:]
+  builtins.__import__ = recording_import
+  try:
+    try:
+      if via_protocol:
+        p = make_receiver(_protocols.MetricPickleReceiver)
+        try:
+          p.dataReceived(struct.pack('!I', len(data)) + data)
+        finally:
+          drop_receiver(p)
+        result = ('protocol',)
+      else:
+        result = ('value', cutil.SafeUnpickler.loads(data))
+    except (pickle.UnpicklingError, ImportError, AttributeError, TypeError, ValueError, IndexError, KeyError, EOFError) as e:
+      result = ('raised', type(e).__name__)
+  finally:
+    builtins.__import__ = orig
+    if route == 'EXT1':
+      copyreg.remove_extension(module, name, _EXT_CODE)
+  cover('ran')
+  if _canary_hits:
+    raise AssertionError('a global off the allow-list was called: %r via %s' % (_canary_hits[:1], route))
+  bad = [m for m in seen if m not in PINNED_MODULES]
+  if bad:
+    raise AssertionError('import of %r attempted via %s' % (bad, route))
+  if (module, name) not in PINNED and result[0] == 'value':
+    raise AssertionError('%s.%s reached through %s was not rejected: %r' % (module, name, route, result[1]))
+  return True
+
+
+def C13_routes(ri: int, proto: int, gi: int, depth: int, via_protocol: bool) -> bool:
+  """
+  pre: 0 <= ri < len(ROUTES)
+  pre: 0 <= proto <= 5
+  pre: 0 <= gi < len(GLOBALS)
+  pre: 0 <= depth <= 2
+  post: __return__
+  """
+  return _route(ri, proto, gi, depth, via_protocol)
+
+
+HARNESSES.append(
+  H('C13_routes', quick=dict(timeout=280, shards=[('r%d_%s' % (i, r), 'ri == %d' % i) for i, r in enumerate(ROUTES)], extra_pre=['depth <= 1', 'gi % 2 == 0 or proto == 2']),
+    thorough=dict(timeout=900, shards=[('r%d_%s' % (i, r), 'ri == %d' % i) for i, r in enumerate(ROUTES)]), covers=['ran'], twin_pre=['ri == 0'],
+    encodes=['carbon.util:SafeUnpickler.loads (real C engine)', 'carbon.util:SafeUnpickler.find_class', 'carbon.protocols:MetricPickleReceiver.dataReceived'],
+    assumptions=['concrete opcode programs for 9 routes to a global x protocols 0-5 x %d (module, name) pairs incl. canaries, nesting depth 0-2 inside a list, '
+                 'run on the real C unpickler (symbolic indices select the program; this checks on this interpreter the CPython fact that every route goes through find_class)' % len(GLOBALS)]))
